@@ -304,8 +304,10 @@ impl RuntimeData {
             if let Value::Object(mut t) = val {
                 unsafe {
                     let t = t.as_mut();
-                    t.marker = GcMarker::Gray;
-                    progress_tracker.push(t);
+                    if matches!(t.marker, GcMarker::White) {
+                        t.marker = GcMarker::Gray;
+                        progress_tracker.push(t);
+                    }
                 }
             }
         }
@@ -314,7 +316,19 @@ impl RuntimeData {
             if let Value::Object(mut t) = val {
                 unsafe {
                     let t = t.as_mut();
-                    t.marker = GcMarker::Gray;
+                    if matches!(t.marker, GcMarker::White) {
+                        t.marker = GcMarker::Gray;
+                        progress_tracker.push(t);
+                    }
+                }
+            }
+        }
+
+        // guarded (Protected) objects are not swept, so whatever they refer to must stay alive too
+        for obj in self.object_list.iter_mut() {
+            unsafe {
+                let t = obj.as_mut();
+                if matches!(t.marker, GcMarker::Protected) {
                     progress_tracker.push(t);
                 }
             }
